@@ -472,7 +472,7 @@ impl Property for C08 {
         "C08"
     }
     fn rule(&self) -> &'static str {
-        "Decision table of tiny programs: target type (9 base types x widths {none, 8, 32, 64}) x value type (same space) x value form {literal, negative literal, variable, const variable, arithmetic expression, cast, call, measurement} x context {declaration, const declaration, assignment} (quick: every target/value base pair with all widths for the forms variable and cast plus a covering sample of the rest; thorough: the full product), and every arithmetic operator x every ordered pair of scalar types. Clauses evaluated on the observed TExpr tree: an identifier has the type of its symbol; a literal has the type of its literal class marked const; a cast is typed with its target; a measurement has the bit shape of its operand; every operand of an arithmetic expression has the expression's type or is wrapped in a cast to it; a declaration/assignment without type diagnostic ends with a value whose type equals the target up to const; a downward kind change, negative literal to unsigned, anything to/from bit/bool/duration, angle to/from another kind and a width narrowing of a non-constant value are diagnosed. Non-trivial: all. Distinct: source text."
+        "Decision table of tiny programs: target type (9 base types x widths {none, 8, 32, 64}) x value type (same space) x value form {literal, negative literal, variable, const variable, arithmetic expression, cast, call, measurement} x context {declaration, const declaration, assignment} (the full product in both tiers), and every arithmetic operator x every ordered pair of scalar types. Clauses evaluated on the observed TExpr tree: an identifier has the type of its symbol; a literal has the type of its literal class marked const; a cast is typed with its target; a measurement has the bit shape of its operand; every operand of an arithmetic expression has the expression's type or is wrapped in a cast to it; a declaration/assignment without type diagnostic ends with a value whose type equals the target up to const; a downward kind change, negative literal to unsigned, anything to/from bit/bool/duration, angle to/from another kind and a width narrowing of a non-constant value are diagnosed. Non-trivial: all. Distinct: source text."
     }
     fn streams(&self, tier: Tier, seed: u64) -> Vec<Stream> {
         let nt = all_types().len() as u64;
@@ -480,19 +480,9 @@ impl Property for C08 {
         let full = nt * nt * nf * nc;
         let na = ARITH.len() as u64;
         let mut v = Vec::new();
-        if tier == Tier::Thorough {
-            v.push(Stream::new("decision-table-full-product", full, true, |i| format!("T|{i}")));
-        } else {
-            // forms `variable` (2) and `cast` (5) with every type pair in every context
-            v.push(Stream::new("decision-table-variable-and-cast-forms", nt * nt * 2 * nc, true, move |i| {
-                let t = i % nt;
-                let val = (i / nt) % nt;
-                let f = if (i / nt / nt) % 2 == 0 { 2 } else { 5 };
-                let c = i / nt / nt / 2;
-                format!("T|{}", t + nt * (val + nt * (f + nf * c)))
-            }));
-            v.push(Stream::new("decision-table-sample", 40_000, false, move |i| format!("T|{}", mix(&[seed, 0xC08, i]) % full)));
-        }
+        // the whole decision table is small (17 496 cells, a fraction of a second): both tiers run it
+        let _ = (nf, nc, seed, tier);
+        v.push(Stream::new("decision-table-full-product", full, true, |i| format!("T|{i}")));
         // register lengths at the boundary between `qubit` and `qubit[n]`: measuring qubit[1] yields bit[1]
         v.push(Stream::new("measurement-register-lengths", 3 * 4 * 3, true, |i| {
             let ctx = ["declaration", "const-declaration", "assignment"][(i % 3) as usize];
